@@ -375,6 +375,11 @@ def extras(chk, steps):
                    ("outer_approximate", lambda: pba.stacking(x.outer_discretisation(rng.choice([10, 40]))))]
             for d in "fpoi":
                 ops.append((f"pow-{d}", (lambda d=d: xp.pow(yp, dependency=d))))
+            # the aggregation functions with a p-box listed first, and a mixture
+            import pyuncertainnumber as pun
+            ops += [("envelope()", lambda: pun.envelope(x, yp)), ("envelope()-3", lambda: pun.envelope(xp, x, yp)), ("imposition()", lambda: pun.imposition(xp, mk(([v - 0.25 for v in Xp[0]], [1.0 + v for v in Xp[1]])))),
+                    ("mixture", lambda: pba.mixture(x, yp) if hasattr(pba, "mixture") else x)]
+            handed_out = [("x", x, X), ("yp", yp, None), ("xp", xp, None)]
             for name, f in ops:
                 chk.count("extra-" + name, key=("extra", name, kind, rep))
                 try:
@@ -389,6 +394,17 @@ def extras(chk, steps):
                 for k2, why in wf_problems(o, steps):
                     chk.report(f"extra:{name}:{k2}", f"{name} on a {kind} p-box returns an ill-formed p-box: {why}",
                                {"kind": "oracle", "operation": name, "X": X, "observed": {k: v for k, v in o.items() if k not in ("L", "R")}, "left_head": o["L"][:5], "right_tail": o["R"][-5:]})
+                handed_out.append((name, r, None))
+            # every p-box handed out so far - operands and results - is still well formed after all these operations
+            for name, obj, _ in handed_out:
+                o = observe(obj)
+                if "L" not in o:
+                    continue
+                chk.count("handed-out-recheck", nontrivial=False)
+                for k2, why in wf_problems(o, steps):
+                    chk.report(f"extra:handed-out:{k2}", f"the p-box '{name}' ({kind} case), looked at again after the later operations {[n for n, _ in ops]}, is ill formed: {why}",
+                               {"kind": "oracle", "object": name, "X": X, "observed": {k: v for k, v in o.items() if k not in ("L", "R")}, "left_head": o["L"][:5], "right_tail": o["R"][-5:]})
+                    break
 
 
 def body(chk):
